@@ -116,6 +116,34 @@ CHECKS = {
         "Checked: ids distinct and answered with the task's own id; every task_states answer equals the true table when written; H and N got every owed answer; every accepted task final and admissible.",
         note="Connections are StreamReaders fed by the explorer; real sockets only in the real-socket tier.",
     ),
+    "C15": dict(
+        level="exploration", design="§4 C15",
+        technique="bounded-exhaustive enumeration of clean invocations on the real CLI with a before/after snapshot of the whole project against a reference deletion set",
+        text="4 workflows (chain, fork with 2-output target and named output, diamond, two components incl. a no-output target and a nested directory) x missing-file subsets x every protect set (none, each single output in 5 spellings: same, ./x, <proj>/x, <proj>/./x, sub/../x; all; a path protected by a non-producer) x 32 CLI variants "
+        "(--all x --force x 7 target argument forms, prompt answers y / n / EOF). Oracle: exactly the existing unprotected outputs of the selected non-excluded targets disappear; everything else (sources, unrelated files, logs, tracked jobs, contents and mtimes) identical; hash records of exactly the selected targets erased; declined prompt: nothing changes, non-zero exit.",
+        note="Lexical path normalisation.",
+    ),
+    "C16": dict(
+        level="exploration", design="§4 C16",
+        technique="bounded-exhaustive enumeration of initial file states and selections through the real `gwf touch` with audit-hook journaled touch order, plus enumeration of every iteration order of dependency/endpoint sets at function level",
+        text="4 workflows (fork with 2-output target, chain, diamond with a no-output target, two components) x every file state over {missing, rank 1..2 (thorough 3)}^outputs x 6 selections x hashing off/on: afterwards every cone target with outputs is `completed` in `gwf status`, existing contents unchanged, created files empty, nothing outside the cone's outputs created or re-stamped, hash records set for exactly the cone when enabled. "
+        "touch_workflow with every permutation of the endpoint list and of each multi-dependency set on real files.",
+        note="Touch order is recovered from os.utime/open audit events and re-stamped with distinct virtual ticks (kernel mtimes are too coarse).",
+    ),
+    "C19": dict(
+        level="exploration", design="§4 C19",
+        technique="metamorphic bounded-exhaustive enumeration (creation way x working_dir x invoking directory) on the real CLI, plus exhaustive validator alphabets for names and path values",
+        text="6 creation ways (target, template without/with explicit working_dir, map with name None/string/function) x 3 workflow working_dir modes x 5 invocations (root, nested subdirectory, unrelated dir with -f abs, unrelated with -f relative, -f file:obj): resolved paths, `gwf info` relations, `gwf status` rows and the .gwf location identical and as the reference says. "
+        "22 name strings x 3 entry points; 114 path values (str, Path, PurePath, custom __fspath__, empty, every C0 control char + DEL at start/middle/end, None, int, bytes, float) x 6 containers x inputs/outputs; working_dir values; map: item kinds x 0..3 items x naming modes x extra x function/instance.",
+        note="In-process invocations with chdir; dotted and non-ASCII names accepted either way.",
+    ),
+    "C20": dict(
+        level="model_checking", design="§4 C20",
+        technique="explicit-state BFS over the reachable contents of .gwfconf.json under real `gwf config set/unset` invocations with a reference map, plus exhaustive flag x config x environment precedence matrices (incl. fresh processes under a pty for colour)",
+        text="BFS depth 2 over 7-9 keys (dotted keys sharing prefixes, keys with built-in defaults, a never-set key) x 8-14 value strings (integers, signs, boolean words, capitalised, empty, spaces, unicode) and depth 3 (thorough 4) over a reduced alphabet, each transition = set/unset + two gets, alternately from the project root and a nested directory: file equals the reference map, get prints the reference value, file stays next to workflow.py. "
+        "Backend 5x5 flag x config matrix (which scheduler's commands are issued), verbosity 4x4 (debug/info lines), colour 3x3x2 under a real pty; namespace isolation: each of 11 look-alike keys alone and all together for each backend (Slurm log mode -> directives, accounting -> sacct calls, local host/port -> connect target).",
+        note="No scheduler installed: guessed default = local. Colour needs a tty: 18 fresh processes under pty.openpty().",
+    ),
 }
 
 PENDING = {
